@@ -1,0 +1,46 @@
+//! Verification-only re-exports, compiled only with the `__verif` feature.
+//! Thin wrappers: no logic of their own.
+use regex::Regex;
+
+use crate::ir::FieldValue;
+
+use super::filtering;
+
+pub use super::hints::verif_hooks as hints;
+
+pub fn equals(l: &FieldValue, r: &FieldValue) -> bool {
+    filtering::equals(l, r)
+}
+pub fn less_than(l: &FieldValue, r: &FieldValue) -> bool {
+    filtering::less_than(l, r)
+}
+pub fn less_than_or_equal(l: &FieldValue, r: &FieldValue) -> bool {
+    filtering::less_than_or_equal(l, r)
+}
+pub fn greater_than(l: &FieldValue, r: &FieldValue) -> bool {
+    filtering::greater_than(l, r)
+}
+pub fn greater_than_or_equal(l: &FieldValue, r: &FieldValue) -> bool {
+    filtering::greater_than_or_equal(l, r)
+}
+pub fn has_substring(l: &FieldValue, r: &FieldValue) -> bool {
+    filtering::has_substring(l, r)
+}
+pub fn has_prefix(l: &FieldValue, r: &FieldValue) -> bool {
+    filtering::has_prefix(l, r)
+}
+pub fn has_suffix(l: &FieldValue, r: &FieldValue) -> bool {
+    filtering::has_suffix(l, r)
+}
+pub fn one_of(l: &FieldValue, r: &FieldValue) -> bool {
+    filtering::one_of(l, r)
+}
+pub fn contains(l: &FieldValue, r: &FieldValue) -> bool {
+    filtering::contains(l, r)
+}
+pub fn regex_matches_slow_path(l: &FieldValue, r: &FieldValue) -> bool {
+    filtering::regex_matches_slow_path(l, r)
+}
+pub fn regex_matches_optimized(l: &FieldValue, r: &Regex) -> bool {
+    filtering::regex_matches_optimized(l, r)
+}
